@@ -56,8 +56,31 @@ def run_impl(cases):
     return C.run_cases(exe, ["\n".join(c) for c in cases])
 
 
-def run_model(cases, variant="fixed"):
+PROBES = [  # (script, index of the op whose result decides, result tokens of the repaired code)
+    (["P 616263 1", "P 616264 2", "R 6162"], 2, ["0"]),                          # fixes/C17-trie-rm-alive
+    (["P 616263 1", "I 0 -", "N 0", "R 616263", "G 616263"], 4, ["0"]),          # fixes/C18-trie-removed-parked
+    (["P 616263 1", "I 0 -", "N 0", "P 616264 2", "N 0"], 4, ["616264", "2"]),   # fixes/C18-trie-split-keeps-node
+]
+
+
+def detect_variant():
+    """Which of the three trie repairs does the working tree contain?  Decided by running three 3-5 line probe
+    scripts on the implementation; selects the model variant the tree is compared with ("111" = all repairs).
+    A tree that loses a repair is then compared with the unrepaired model, and the failing scripts are reported by
+    the monitor unless the finding is (still) listed in known_findings.json."""
+    if "variant" not in _built:
+        res = run_impl([p[0] for p in PROBES])
+        v = ""
+        for (script, idx, want), (lines, crash) in zip(PROBES, res):
+            ops = parse_log(lines)
+            v += "1" if (not crash and len(ops) > idx and ops[idx][3] == want) else "0"
+        _built["variant"] = v
+    return _built["variant"]
+
+
+def run_model(cases, variant=None):
     _, model = build()
+    variant = variant or detect_variant()
     text = "".join("# case %d\n%s\n" % (i, "\n".join(c)) for i, c in enumerate(cases))
     rc, out, err = C.sh2([model, variant], stdin=text.encode(), timeout=600)
     if rc != 0:
@@ -157,7 +180,13 @@ class Monitor:
                 self.out_of_guard.add(K_ZOMBIE)
             if c == "P":
                 v = int(tok[2])
-                if key in self.d:
+                if key in self.zombies:
+                    # the removal the iterators were holding up is completed now; then a new entry
+                    exp = self.event(DELETED, key, self.zombies.pop(key), 0) + self.event(INSERTED, key, 0, v)
+                    for it in self.its.values():
+                        if not it["done"]:
+                            it["removals_only"] = False
+                elif key in self.d:
                     exp = self.event(REPLACED, key, self.d[key], v)
                 else:
                     exp = self.event(INSERTED, key, 0, v)
@@ -571,7 +600,7 @@ def evaluate(ctx, res, pid, cases, tags, stats):
     assume = os.environ.get("VERIF_TRIE_ASSUME_KNOWN")
     known_ids = set(k.get("id") for k in (ctx.known or []))
     impl = run_impl(cases)
-    model = run_model(cases, "fixed")
+    model = run_model(cases)
     for i, case in enumerate(cases):
         lines, crash = impl[i]
         j = judge(case, lines, crash, model[i], order=(pid == "C17"))
@@ -618,6 +647,7 @@ def evaluate(ctx, res, pid, cases, tags, stats):
 
 
 def _finish(res, pid, stats):
+    stats["code_variant_rm_removed_split"] = detect_variant()
     res.extra.setdefault("trie", {})[pid] = stats
     note = ("trie: generated scripts run on lib/trie.c+map.c (ASan/UBSan) and on the extracted model; monitor = "
             "dict + sorted order + subscription list")
@@ -663,7 +693,7 @@ def replay(ctx, payload):
     """re-run the script of a replay file on the current tree; print the failing observation; 1 = still fails"""
     case = payload.get("script") or []
     (lines, crash), = run_impl([case])
-    mraw = run_model([case], "fixed")[0]
+    mraw = run_model([case])[0]
     j = judge(case, lines, crash, mraw)
     print("script:", case)
     print("implementation:", lines[-20:])
